@@ -289,6 +289,7 @@ def check(ctx):
     rep.add('H6', f_ld.site(cst), 'an HDF5 file of another kind (no format marker) is refused before a collection is built', okmk, expected=f'FMT_VERSION_ATTR in {fh}.attrs on the path', found=sorted(atc), stmt='marker guard')
     mk = [r for r in raises if any(a[0] == 'notin' and a[2] == f'{fh}.attrs' for a in path_atoms(gml[r]))]
     rep.add('H6', f_ld.site(mk[0] if mk else cst), 'the missing marker raises the dedicated SignaturesFileError', len(mk) == 1 and u(mk[0].exc) == excname, expected=f'raise {excname}', found=[u(r) for r in mk], stmt='marker refusal')
+    rep.account_returns('H6', f_ld, [cst] if isinstance(cst, ast.Return) else [], 'loaded collection')
     rep.add('H6', f_ld.site(cst), 'the collection is built on the opened file', [u(a) for a in ctor[0].args] == [fh], expected=f'HDF5Signatures({fh})', found=u(ctor[0]), stmt='constructor operand')
     # constructor: marker test first, raising SignaturesFileError
     first_raise = next((s for s in stmts_in(f_init.node.body) if isinstance(s, ast.Raise)), None)
